@@ -151,6 +151,135 @@ def size_locals_of(f, fl, producer_pred):
     return out
 
 
+def _err_ok_blocks(f):
+    """Blocks assigning a failure / a success to the return place, by the shape of the return type."""
+    errb = set(err_assign_blocks(f))
+    okb = set(ok_assign_blocks(f))
+    rty = f.local_ty(0)
+    if rty.startswith("std::option::Option<"):
+        some_is_err = "Err" in rty
+        errb, okb = set(), set()
+        for b2, i2, s2 in f.stmts():
+            if s2["pl"]["l"] == 0 and s2["rv"]["k"] == "agg" and s2["rv"].get("variant") in ("Some", "None"):
+                is_err = (s2["rv"]["variant"] == "Some") == some_is_err
+                (errb if is_err else okb).add(b2)
+    return errb, okb
+
+
+_WRAPPERS = {}
+
+
+def checked_read_wrapper(prog, g, depth=0):
+    """g is a crate-local function returning Option<Bytes> / Result<Bytes, _> all of whose stream reads are length-checked
+    (directly or through another such wrapper) and which has at least one: its callers cannot obtain the bytes of a short
+    read without handling the failure.  Forwarders (`w(..).ok_or_else(e)`, `w(..)?`) count."""
+    if g.path in _WRAPPERS:
+        return _WRAPPERS[g.path]
+    _WRAPPERS[g.path] = False
+    rty = g.local_ty(0)
+    if depth > 3 or g.kind == "Closure" or "Bytes" not in rty or not (rty.startswith("std::option::Option<") or rty.startswith("std::result::Result<")):
+        return False
+    res = read_checks(prog, g, depth + 1)
+    _WRAPPERS[g.path] = bool(res) and all(ok for _, _, ok, _, _ in res)
+    return _WRAPPERS[g.path]
+
+
+def read_checks(prog, f, depth=0):
+    """[(block, kind, ok, how, message)] for every stream read of f: direct `Stream::read` calls (the length of the data must be
+    compared with the count requested, the mismatch edge must reach only failures, uses must lie behind the match edge) and
+    calls of checked read wrappers (the result must not be defaulted away)."""
+    out = []
+    fl = Flow(f)
+    errb, okb = _err_ok_blocks(f)
+    for bb, t in f.calls():
+        c = callee_of(t) or ""
+        if c.endswith("Stream::read"):
+            continue
+        g = prog.fns.get(c)
+        if g is not None and (t.get("callee_local") or t.get("target_local")) and checked_read_wrapper(prog, g, depth):
+            r = t["dest"]["l"]
+            fw = fl.forward([r])
+            swallow = [callee_of(t2) for _, t2 in f.calls() if (callee_of(t2) or "").rsplit("::", 1)[-1] in
+                       ("unwrap_or", "unwrap_or_default", "unwrap_or_else") and t2["args"] and op_local(t2["args"][0]) in fw]
+            out.append((bb, "wrapper", not swallow,
+                        "auto: read through the length-checked wrapper %s; the failure cannot be ignored to obtain the bytes" % c,
+                        "%s reads through %s but replaces a short read by a default value (%s)" % (f.path, c, swallow)))
+    for bb, t in f.calls():
+        if not (callee_of(t) or "").endswith("Stream::read"):
+            continue
+        r = t["dest"]["l"]
+        n_arg = t["args"][1]
+        n_const = op_int(n_arg)
+        n_src = fl.back_pure([op_local(n_arg)]) if op_local(n_arg) is not None else set()
+        aliases = {r}
+        grew = True
+        while grew:
+            grew = False
+            for _, _, s in f.stmts():
+                if s["pl"]["l"] in aliases or s["pl"]["p"]:
+                    continue
+                if s["rv"]["k"] in ("ref", "use"):
+                    for o in rv_operands(s["rv"]):
+                        p = op_place(o)
+                        if p and p["l"] in aliases and not [e for e in p["p"] if e != "*"]:
+                            aliases.add(s["pl"]["l"])
+                            grew = True
+        ok_test = None
+        for lb, lt in f.calls():
+            if not (callee_of(lt) or "").endswith("Bytes::length"):
+                continue
+            if op_local(lt["args"][0]) not in aliases:
+                continue
+            ll = lt["dest"]["l"]
+            for cb, ci, cs in f.stmts():
+                rv = cs["rv"]
+                if rv["k"] == "bin" and rv["op"] in ("Ne", "Eq") and ll in (op_local(rv["a"]), op_local(rv["b"])):
+                    other = rv["b"] if op_local(rv["a"]) == ll else rv["a"]
+                    oc = op_int(other)
+                    same = False
+                    if oc is not None:
+                        same = (n_const is not None and (oc == n_const or (n_const == 1 and oc == 0 and rv["op"] == "Eq")))
+                    elif op_local(other) is not None:
+                        same = bool(fl.back_pure([op_local(other)]) & n_src)
+                    if not same:
+                        continue
+                    cl = cs["pl"]["l"]
+                    for sb, blk in enumerate(f.blocks):
+                        tt = blk["t"]
+                        if tt["k"] == "switch" and op_local(tt["discr"]) == cl:
+                            arms = dict((v, g_) for v, g_ in tt["arms"])
+                            t_true, t_false = (tt["otherwise"] if 0 in arms else arms.get(1)), arms.get(0, tt["otherwise"])
+                            if rv["op"] == "Ne":
+                                mism, match = t_true, t_false
+                            elif oc == 0 and n_const == 1:
+                                mism, match = t_true, t_false
+                            else:
+                                mism, match = t_false, t_true
+                            ok_test = (sb, mism, match)
+        if ok_test is None:
+            out.append((bb, "read", False, "",
+                        "%s reads %s byte(s) from the stream but never compares the length actually read with the count "
+                        "requested: a truncated input would be decoded into a shorter (different) atom" % (
+                            f.path, n_const if n_const is not None else "a computed number of")))
+            continue
+        sb, mism, match = ok_test
+        mism_reach = f.reachable(mism, avoid=[match])
+        only_err = bool(mism_reach & errb) and not (mism_reach & okb)
+        uses = []
+        for ub, ut in f.calls():
+            if ub == bb or (callee_of(ut) or "").endswith("Bytes::length"):
+                continue
+            if any(op_local(a) in aliases for a in ut["args"]):
+                uses.append(ub)
+        guarded = all(u not in f.reachable(0, avoid_edges=[(sb, match)]) or u not in f.reachable(0) for u in uses)
+        out.append((bb, "read", only_err and guarded,
+                    "auto: length of the data read is compared with the requested count; mismatch returns an error; the %d "
+                    "use(s) of the data are only reachable through the match edge" % len(uses),
+                    "%s: stream read at %s - mismatch edge returns only errors=%s, all uses behind the length check=%s" % (
+                        f.path, f.loc(bb), only_err, guarded)))
+    return out
+
+
 def run(tier="quick", replay=None):
     R = Report(PID, tier,
                "Recovers the writer's atom length-class table from MIR (ordered `size < C` guard chain; each arm's emitted prefix "
@@ -268,95 +397,13 @@ def run(tier="quick", replay=None):
     nread = 0
     for path in (READER, READ_OP):
         for f in prog.family(path):
-            fl = Flow(f)
-            errb = set(err_assign_blocks(f))
-            okb = set(ok_assign_blocks(f))
-            if f.local_ty(0).startswith("std::option::Option<") and "Err" in f.local_ty(0):
-                # `-> Option<EvalErr>`: Some(e) is the failure, None the success
-                errb, okb = set(), set()
-                for b2, i2, s2 in f.stmts():
-                    if s2["pl"]["l"] == 0 and s2["rv"]["k"] == "agg" and s2["rv"].get("variant") in ("Some", "None"):
-                        (errb if s2["rv"]["variant"] == "Some" else okb).add(b2)
-            for bb, t in f.calls():
-                if not (callee_of(t) or "").endswith("Stream::read"):
-                    continue
+            for bb, key_sfx, ok, how, msg in read_checks(prog, f):
                 nread += 1
-                r = t["dest"]["l"]
                 key = "R08.b|%s|read#%d" % (f.path, nread)
-                n_arg = t["args"][1]
-                n_const = op_int(n_arg)
-                n_src = fl.back_pure([op_local(n_arg)]) if op_local(n_arg) is not None else set()
-                aliases = {r}
-                grew = True
-                while grew:
-                    grew = False
-                    for _, _, s in f.stmts():
-                        if s["pl"]["l"] in aliases or s["pl"]["p"]:
-                            continue
-                        if s["rv"]["k"] in ("ref", "use"):
-                            for o in rv_operands(s["rv"]):
-                                p = op_place(o)
-                                if p and p["l"] in aliases and not [e for e in p["p"] if e != "*"]:
-                                    aliases.add(s["pl"]["l"])
-                                    grew = True
-                # the length test
-                ok_test = None
-                for lb, lt in f.calls():
-                    if not (callee_of(lt) or "").endswith("Bytes::length"):
-                        continue
-                    if op_local(lt["args"][0]) not in aliases:
-                        continue
-                    ll = lt["dest"]["l"]
-                    # comparison using ll
-                    for cb, ci, cs in f.stmts():
-                        rv = cs["rv"]
-                        if rv["k"] == "bin" and rv["op"] in ("Ne", "Eq") and ll in (op_local(rv["a"]), op_local(rv["b"])):
-                            other = rv["b"] if op_local(rv["a"]) == ll else rv["a"]
-                            oc = op_int(other)
-                            same = False
-                            if oc is not None:
-                                same = (n_const is not None and (oc == n_const or (n_const == 1 and oc == 0 and rv["op"] == "Eq")))
-                            elif op_local(other) is not None:
-                                same = bool(fl.back_pure([op_local(other)]) & n_src)
-                            if not same:
-                                continue
-                            # the switch on this comparison
-                            cl = cs["pl"]["l"]
-                            for sb, blk in enumerate(f.blocks):
-                                tt = blk["t"]
-                                if tt["k"] == "switch" and op_local(tt["discr"]) == cl:
-                                    arms = dict((v, g) for v, g in tt["arms"])
-                                    t_true, t_false = (tt["otherwise"] if 0 in arms else arms.get(1)), arms.get(0, tt["otherwise"])
-                                    # mismatch edge: Ne true / Eq(len, n) false / Eq(len, 0) true
-                                    if rv["op"] == "Ne":
-                                        mism, match = t_true, t_false
-                                    elif oc == 0 and n_const == 1:
-                                        mism, match = t_true, t_false
-                                    else:
-                                        mism, match = t_false, t_true
-                                    ok_test = (sb, mism, match)
-                if ok_test is None:
-                    R.viol("R08.b", key, f.loc(bb),
-                           "%s reads %s byte(s) from the stream but never compares the length actually read with the count "
-                           "requested: a truncated input would be decoded into a shorter (different) atom" % (
-                               f.path, n_const if n_const is not None else "a computed number of"), fn=f.path)
-                    continue
-                sb, mism, match = ok_test
-                mism_reach = f.reachable(mism, avoid=[match])
-                only_err = bool(mism_reach & errb) and not (mism_reach & okb)
-                # uses of the data are behind the match edge
-                uses = []
-                for ub, ut in f.calls():
-                    if ub == bb or (callee_of(ut) or "").endswith("Bytes::length"):
-                        continue
-                    if any(op_local(a) in aliases for a in ut["args"]):
-                        uses.append(ub)
-                guarded = all(u not in f.reachable(0, avoid_edges=[(sb, match)]) or u not in f.reachable(0) for u in uses)
-                R.check(only_err and guarded, "R08.b", key, f.loc(bb),
-                        "auto: length of the data read is compared with the requested count; mismatch returns an error; the %d "
-                        "use(s) of the data are only reachable through the match edge" % len(uses),
-                        "%s: stream read at %s — mismatch edge returns only errors=%s, all uses behind the length check=%s" % (
-                            f.path, f.loc(bb), only_err, guarded), fn=f.path)
+                if ok:
+                    R.ob("R08.b", key, f.loc(bb), how, fn=f.path)
+                else:
+                    R.viol("R08.b", key, f.loc(bb), msg, fn=f.path)
     R.floor("R08.b", "stream reads in the reader", nread, 3)
     # size limit and literal classes of the reader
     rd_fam = prog.family(READER)
